@@ -11,6 +11,7 @@ import ClaripyProofs.Lemmas.VSA.ConcatSound
 import ClaripyProofs.Lemmas.VSA.AshrSound
 import ClaripyProofs.Lemmas.VSA.MeetFinal
 import ClaripyProofs.Lemmas.VSA.MulTop
+import ClaripyProofs.Lemmas.VSA.ModSound
 /-!
 # C21 — strided-interval transfer functions are sound
 
@@ -338,6 +339,22 @@ theorem C21_mul_closed (a b r : SI) (ha : a.WF) (hb : b.WF) (hbits : a.bits = b.
 example : alignedNormal (SI.new 4 3 13 6) (SI.new 4 2 1 7) ∧ (SI.new 4 3 13 6).mem 3 ∧ (SI.new 4 2 1 7).mem 5 ∧
     (∃ r, (SI.new 4 3 13 6).mul (SI.new 4 2 1 7) = .ok r ∧ r.mem (Conc.mul 4 3 5) ∧ r.mem (Conc.mul 4 13 7)) := by
   refine ⟨by unfold alignedNormal; decide, by decide, by decide, ⟨_, rfl, by decide, by decide⟩⟩
+
+/-! ## mod (unsigned remainder) — through `udiv` of the pieces, `mul` and `sub`; divisor aligned -/
+
+/-- `__mod__` is sound and closed when the divisor is aligned (division by zero exempt: claripy raises there).  Per pair of
+non-wrapping pieces either the quotients are one value `k` and the remainder is `p - k*t` (`mul` on `{k}` and the divisor's
+piece needs that piece aligned), or the remainder is below the divisor's upper bound. -/
+theorem C21_mod_sound (a b r : SI) (ha : a.WF) (hb : b.WF) (hbits : a.bits = b.bits) (hab : a.bottom = false)
+    (hbb : b.bottom = false) (hal : b.Aligned) (h : a.mod b = .ok r) :
+    (r.WF ∧ r.bits = a.bits) ∧ ∀ x y, a.mem x → b.mem y → y ≠ 0 → r.mem (Conc.urem a.bits x y) :=
+  let g := mod_sound a.bits a b r ⟨ha, rfl⟩ ⟨hb, hbits.symm⟩ hab hbb hal h
+  ⟨g.1.1, g.2⟩
+
+/-- non-vacuity: a wrapping dividend, a divisor interval -/
+example : (SI.new 4 3 13 6).mem 3 ∧ (SI.new 4 2 3 7).mem 5 ∧ (SI.new 4 2 3 7).Aligned ∧
+    (∃ r, (SI.new 4 3 13 6).mod (SI.new 4 2 3 7) = .ok r ∧ r.mem (Conc.urem 4 3 5) ∧ r.mem (Conc.urem 4 13 7)) := by
+  refine ⟨by decide, by decide, by decide, ⟨_, rfl, by decide, by decide⟩⟩
 
 /-! ## bounded tests (not theorems) -/
 
